@@ -558,7 +558,14 @@ extern "C" int harness_main()
 #elif MODE == 3
 	// ---- UDP ASSOCIATE (SOCKS5): datagrams from the client are forwarded to the target named in their header with
 	// the header stripped; replies come back wrapped in a header naming their source.
+	// what the client will send once associated: optionally a malformed datagram first
+	bool const malformed_first = vp_choose(2) == 1;
+#ifdef SMALL
+	// (quick tier: after a malformed datagram only one plain datagram follows, without the reply flag)
+	int const flags = malformed_first ? 0 : (vp_choose(2) == 0 ? 0 : int(udp_associate_respond_empty_hostname));
+#else
 	int const flags = vp_choose(2) == 0 ? 0 : int(udp_associate_respond_empty_hostname);
+#endif
 	socks_server* proxy = new socks_server(pios, 1080, 5, std::uint32_t(flags));
 	bool const declared = vp_choose(2) == 0;             // the request names the client's UDP endpoint, or 0.0.0.0:0 (learned from the first datagram)
 	int const cport = 4000;
@@ -597,9 +604,11 @@ extern "C" int harness_main()
 		});
 	};
 	t_recv(); c_recv();
-	// what the client will send once associated
-	bool const malformed_first = vp_choose(2) == 1;
+#ifdef SMALL
+	int const ndg = malformed_first ? 1 : 1 + vp_choose(2);
+#else
 	int const ndg = 1 + vp_choose(2);
+#endif
 	std::string dg[3]; std::string dg_payload[3]; bool dg_named[3];
 	int nsend = 0;
 	if (malformed_first)
@@ -609,12 +618,12 @@ extern "C" int harness_main()
 		int const l = lens[vp_choose(4)];
 #ifdef SMALL
 		// quick tier: the bytes the parser branches on (reserved, fragment, address type, first address / length byte)
-		// and the payload are symbolic; the rest of the address and the port (which only select where the datagram
-		// is sent) come from a small alphabet
+		// and the last byte are symbolic; bytes 5-10 (rest of the address / name and the port, which only select
+		// where the datagram is sent) come from a small alphabet
 		{
-			unsigned char const tails[2][5] = {{0, 0, 3, 9100 >> 8, 9100 & 0xff}, {'a', 'b', 'c', 0, 7}};
+			unsigned char const tails[2][6] = {{0, 0, 3, 9100 >> 8, 9100 & 0xff, 1}, {'a', 'b', 'c', 0, 7, 9}};
 			int const a = l > 5 ? vp_choose(2) : 0;
-			for (int i = 0; i < l; ++i) dg[nsend].push_back((i >= 5 && i < 10) ? char(tails[a][i - 5]) : char(vp_sym_byte()));
+			for (int i = 0; i < l; ++i) dg[nsend].push_back((i >= 5 && i < 11) ? char(tails[a][i - 5]) : char(vp_sym_byte()));
 		}
 #else
 		for (int i = 0; i < l; ++i) dg[nsend].push_back(char(vp_sym_byte()));
@@ -625,12 +634,20 @@ extern "C" int harness_main()
 	int const first_valid = nsend;
 	for (int k = 0; k < ndg; ++k)
 	{
+#ifdef SMALL
+		bool const named = malformed_first ? false : vp_choose(2) == 1;
+#else
 		bool const named = vp_choose(2) == 1;
+#endif
 		std::string h("\x00\x00\x00", 3);
 		if (named) { h.push_back(3); h.push_back(char(11)); h += "target.test"; }
 		else { h.push_back(1); auto b = TA.to_v4().to_bytes(); h.append(reinterpret_cast<char const*>(b.data()), 4); }
 		h.push_back(char(9100 >> 8)); h.push_back(char(9100 & 0xff));
+#ifdef SMALL
+		int const pl = malformed_first ? 1 : 1 + vp_choose(2);
+#else
 		int const pl = 1 + vp_choose(2);
+#endif
 		std::string pay; for (int i = 0; i < pl; ++i) pay.push_back(char(vp_sym_byte()));
 		dg[nsend] = h + pay; dg_payload[nsend] = pay; dg_named[nsend] = named;
 		++nsend;
